@@ -25,11 +25,17 @@ S/F/N/O: executable specification satisfied / falsified by the implementation's 
 -/
 open Driver
 
+/-- store cases run over the bus carry the prefix "B=": same ops, same observation format (content read through nodes.* requests) -/
+def busArgs (args : List String) : List String :=
+  match args with
+  | [c] => if c.startsWith "B=" then [(c.drop 2).toString] else args
+  | _ => args
+
 def dispatch (prop : String) (args : List String) (impl : String) : Verdict :=
   match prop with
-  | "C01" => C01.handleC01 args impl
+  | "C01" => C01.handleC01 (busArgs args) impl
   | "C02" => C02.handle args impl
-  | "C03" => C01.handleC03 args impl
+  | "C03" => C01.handleC03 (busArgs args) impl
   | "C04" => C04.handle args impl
   | "C05" =>
     -- "B=" cases run over the bus with a subscription to up.> and are judged by the rebroadcast model of C06
